@@ -588,7 +588,6 @@ class DBusObject :
                 if ifc:
                     for p in ifc.properties.values():
                         addp(p)
-                    break
 
         else:
             for cache in self._iterIFaceCaches():
